@@ -51,6 +51,23 @@ CLAIMS = {
         'note': 'Lean kernel; translator audit; Rust type system; dependencies\' internals outside the model.',
         'design_ref': 'DESIGN.md §6 C15',
     },
+    'C12': {
+        'text': 'C12_report: for every range (any insert history, any keys) with weights in the domain, a rank pair is reported with weight w iff it is canonical and all of its '
+                '6/4/12 combos are present with that weight; C12_orphans: the leftover view is exactly the range minus the combos of reported rank pairs; C12_disjoint + C12_cover: '
+                'every combo of the range lies in exactly one of the two views with its weight. General proofs (closed form of rank_pairs, probe soundness, classification of combos).',
+        'note': 'Lean kernel + standard axioms; hand-written model of rank_pairs / orphan_card_pairs tied by the correspondence (all 3^6 / 3^4 patterns per rank pair, offsuit patterns, whole ranges); '
+                'assumption: on the weight domain f32 == is equality (NaN and -0.0 excluded); combo lists of a rank pair are read from the source each run.',
+        'design_ref': 'DESIGN.md §6 C12',
+    },
+    'C17': {
+        'text': 'C17_canonical: two construction histories with the same lookup print identically (and have the same rank-pair and leftover views) - the formatter reads the range '
+                'only through lookup; C17_runs: for every row and every table the run-length state machine emits exactly one token per maximal run computed by Spec.runs (X+ iff the run '
+                'starts at the top with length >= 2, single iff length 1, X-Y otherwise); C17_runs_maximal: the runs are disjoint, cover every present entry, are weight-constant, and two '
+                'touching runs carry different weights (no two tokens could be merged); C17_order: pocket row, then per high card suited then offsuit row, then leftovers.',
+        'note': 'Lean kernel + standard axioms; hand-written model of Display for HandRange tied by the correspondence (eight construction histories incl. parse vs collect vs unsized iterators; exact text compared '
+                'incl. f32 text); that the real formatter never iterates the hash map for output order is what the correspondence checks.',
+        'design_ref': 'DESIGN.md §6 C17',
+    },
     'C07': {
         'text': 'Theorem C07: for seven distinct cards the category given by the interval arms read from the source equals the rule-book category of the strongest '
                 'five-card hand (C07_intervals proved symbolically for all indexes 1..7462; combined with C01 and the numbering theorem).',
